@@ -140,8 +140,11 @@ main:
 
 	cc, err := socketace.NewClientConnection(conn, manager, false, ups.Address.Host)
 	if err != nil {
+		// the attempt is over: the physical connection made for it is ours to close
+		streams.TryClose(conn)
 		return errors.Wrapf(err, "Could not open connection")
 	} else if mustSecure && !cc.Secure() {
+		streams.TryClose(cc)
 		return errors.Errorf("Could not establish a secure connection to %v", ups.Address)
 	}
 
